@@ -1,20 +1,30 @@
 import Model.GenOrder
 /-! REGENERATED on every run by harness/cmd/extract-mapranges (go/types) from the generator packages
 github.com/drshriveer/gtools/gencommon, github.com/drshriveer/gtools/genum/gen, github.com/drshriveer/gtools/genum/cmd/genum, github.com/drshriveer/gtools/gerror/gen, github.com/drshriveer/gtools/gerror/cmd/gerror, github.com/drshriveer/gtools/gsort/gen, github.com/drshriveer/gtools/gsort/cmd/gsort.
-Every `range` over a map-typed expression and every set.Set.Slice call, as ⟨file, function, expression⟩.
+Every `range` over a map-typed expression and every set.Set.Slice call, as ⟨file, function, expression, effects⟩;
+effects = what the loop body does, in source order (assignment targets, append/delete containers, callees,
+control transfers; indices normalised to ·).
 A site occurring twice in one function is listed twice. Do not edit. -/
 namespace Generated.MapRanges
 open GenOrder
 
 def sites : List Site := [
-  ⟨"gencommon/comments.go", "CommentsFromObj", "range cmap"⟩,
-  ⟨"gencommon/imports.go", "*ImportHandler.GetActive", "range ih.imports"⟩,
-  ⟨"gencommon/interface.go", "allpkgs.findPKgByName", "range pkg.Imports"⟩,
-  ⟨"gencommon/interface.go", "allpkgs.namedTypeToInterface", "range embeddedIface.ambiguous"⟩,
-  ⟨"gencommon/interface.go", "allpkgs.namedTypeToInterface", "range methodsToAdd"⟩,
-  ⟨"genum/gen/generate.go", "processDuplicates", "range data"⟩,
-  ⟨"gsort/gen/sorter_desc.go", "createSorterDesc", "range descs"⟩,
-  ⟨"gsort/gen/sorter_desc.go", "createSorterDesc", "range descs"⟩
+  ⟨"gencommon/comments.go", "CommentsFromObj", "range cmap",
+    ["if", "define:v", "define:ok", "call:len", "call:len", "return/1", "call:FromCommentGroup", "call:len"]⟩,
+  ⟨"gencommon/imports.go", "*ImportHandler.GetActive", "range ih.imports",
+    ["if", "assign=:result", "append:result"]⟩,
+  ⟨"gencommon/interface.go", "allpkgs.findPKgByName", "range pkg.Imports",
+    ["if", "return/2"]⟩,
+  ⟨"gencommon/interface.go", "allpkgs.namedTypeToInterface", "range embeddedIface.ambiguous",
+    ["if", "call:ignoreEmbeddedMethodsNamed.Has", "continue", "call:ignoreEmbeddedMethodsNamed.Add", "call:result.ambiguous.Add", "delete:methodsToAdd"]⟩,
+  ⟨"gencommon/interface.go", "allpkgs.namedTypeToInterface", "range methodsToAdd",
+    ["assign=:result.Methods", "append:result.Methods"]⟩,
+  ⟨"genum/gen/generate.go", "processDuplicates", "range data",
+    ["define:primary", "define:safe", "call:duplicates.getPrimary", "if", "call:len", "range:traits", "assign=:traits[·].Traits", "call:slices.DeleteFunc", "return/1", "if", "continue", "call:log.Printf", "call:duplicates.stringList"]⟩,
+  ⟨"gsort/gen/sorter_desc.go", "createSorterDesc", "range descs",
+    ["assign=:result", "append:result"]⟩,
+  ⟨"gsort/gen/sorter_desc.go", "createSorterDesc", "range descs",
+    ["if", "define:err", "call:desc.Fields.Validate", "return/2"]⟩
 ]
 
 end Generated.MapRanges
